@@ -29,7 +29,7 @@ from common import BIN, impl_error
 from props import hytera_tables as HT
 
 PROP = "C17"
-MODULES = ["C17"]
+MODULES = ["C17", "C17p"]
 GEN = ["HstrpHandler"]
 MATCHERS = {}
 # extra files for the drift detector (the property's own anchors are always included)
